@@ -35,11 +35,17 @@ fn sort_from(s: &str) -> Sort {
 
 /// One scan history. Returns the number of requests.
 fn scan(ctx: &Ctx, ka: &mut KeepAlive, size: u32, limit: Option<u64>, sort: Sort, cn: &Cn, samples: &Samples) {
+    scan_with(ctx, ka, size, limit, sort, false, cn, samples)
+}
+
+/// `interfere`: requests whose token cannot be issued are sent between the pages of the scan.
+#[allow(clippy::too_many_arguments)]
+fn scan_with(ctx: &Ctx, ka: &mut KeepAlive, size: u32, limit: Option<u64>, sort: Sort, interfere: bool, cn: &Cn, samples: &Samples) {
     cn.scans.fetch_add(1, Ordering::Relaxed);
     let want: Vec<Item> = paging::collection(size, sort, false);
     let eff = limit.unwrap_or(100).min(10_000) as usize;
     let bound = (size as usize).div_ceil(eff) + 1;
-    let case = json!({"kind":"scan","size": size, "limit": limit, "sort": sort_name(sort)});
+    let case = json!({"kind":"scan","size": size, "limit": limit, "sort": sort_name(sort), "failing_token_requests_between_pages": interfere});
     let lim = limit.map(|l| format!("&limit={l}")).unwrap_or_default();
     let mut url = format!("/items?size={size}&sort={}{lim}", sort_name(sort));
     let mut got: Vec<Item> = vec![];
@@ -56,6 +62,9 @@ fn scan(ctx: &Ctx, ka: &mut KeepAlive, size: u32, limit: Option<u64>, sort: Sort
                 observed: json!({"requests_so_far": nreq, "pages": pages}),
             });
             return;
+        }
+        if interfere {
+            poison(ka, cn);
         }
         let r = ka.roundtrip(&get(&url, ""), false, T);
         let ReadOutcome::Resp(resp) = &r else {
@@ -125,6 +134,8 @@ fn scan(ctx: &Ctx, ka: &mut KeepAlive, size: u32, limit: Option<u64>, sort: Sort
 fn poison(ka: &mut KeepAlive, cn: &Cn) {
     cn.poison.fetch_add(1, Ordering::Relaxed);
     let _ = ka.roundtrip(&get("/items?size=2&long=true&limit=1", ""), false, T);
+    // ... and one whose selector fails to serialise part-way
+    let _ = ka.roundtrip(&get("/bad_token?size=1", ""), false, T);
 }
 
 fn main() {
@@ -137,7 +148,8 @@ fn main() {
             let srv = LiveServer::start(paging::api(), (), ServerOpts { rt: RtKind::CurrentThread, ..Default::default() }).unwrap_or_else(|e| machinery_failure(&e));
             let mut ka = KeepAlive::new(srv.addr);
             poison(&mut ka, &cn);
-            scan(ctx, &mut ka, case["size"].as_u64().unwrap() as u32, case["limit"].as_u64(), sort_from(case["sort"].as_str().unwrap_or("")), &cn, &Samples::new(0));
+            scan_with(ctx, &mut ka, case["size"].as_u64().unwrap() as u32, case["limit"].as_u64(), sort_from(case["sort"].as_str().unwrap_or("")),
+                case["failing_token_requests_between_pages"].as_bool().unwrap_or(false), &cn, &Samples::new(0));
         });
     }
     let ctx = Ctx::new(&args, level, "E2-live");
@@ -189,7 +201,7 @@ fn main() {
                     if (i + si) % 5 == 0 {
                         poison(&mut ka, &cn);
                     }
-                    scan(&ctx, &mut ka, *size, *limit, *sort, &cn, &samples);
+                    scan_with(&ctx, &mut ka, *size, *limit, *sort, (i + si) % 5 == 1 && *size <= 260, &cn, &samples);
                 }
                 done.fetch_add(1, Ordering::Relaxed);
             }
